@@ -90,8 +90,10 @@ def broadcast_names(prelude):
     return re.findall(r"pub broadcast axiom fn (\w+)", prelude)
 
 
-def run_extractor(specs, tags, view, out_rs, out_map):
+def run_extractor(specs, tags, view, out_rs, out_map, lenient=False):
     cmd = [EXTRACTOR, "--repo", REPO, "--tags", ",".join(tags), "--view", view, "--out", out_rs, "--map", out_map]
+    if lenient:
+        cmd.append("--lenient")
     for s in specs:
         cmd += ["--spec", s]
     r = sh(cmd)
@@ -125,12 +127,12 @@ def gen_const_distinct(ex_text):
     return out, len(vals)
 
 
-def assemble(unit_name, specs, tags, view, props_files, workdir, prelude_files=None, extra_prelude="", gen_props=None):
+def assemble(unit_name, specs, tags, view, props_files, workdir, prelude_files=None, extra_prelude="", gen_props=None, lenient=False):
     """returns (path, layout) where layout maps generated line ranges to (section, items)"""
     os.makedirs(workdir, exist_ok=True)
     ex_rs = os.path.join(workdir, unit_name + ".extracted.rs")
     ex_map = os.path.join(workdir, unit_name + ".map.json")
-    m = run_extractor(specs, tags, view, ex_rs, ex_map)
+    m = run_extractor(specs, tags, view, ex_rs, ex_map, lenient=lenient)
     pre = prelude_text(prelude_files) + "\n" + extra_prelude
     axioms = broadcast_names(pre)
     parts = []
